@@ -270,6 +270,32 @@ def gen_purity_world(rw, rv, knobs):
         R.add("sim", {"kind": "simulator", "exposure_time": rw.choice([300.0, 1000.0]), "background_sky_level": rw.choice([0.0, 0.1, 1.0]), "psf": ref(kpsf) if rw.random() < 0.7 else None,
                       "noise_seed": rw.randrange(0, 1000), "add_poisson_noise_to_data": rw.random() < 0.8, "normalize_psf": rw.random() < 0.7})
 
+    if "image_mesh" in want:
+        adapt_im = R.add("a", {"kind": "array2d", "mask": ref(m0), "input": "slim", "values": hx(rv, n0, "positive")})
+        for _ in range(rw.randrange(1, 3)):
+            c = rw.choice(["Overlay", "Hilbert", "Hilbert", "KMeans"])
+            if c == "Overlay":
+                kw = {"shape": [rw.randrange(2, 5), rw.randrange(2, 5)]}
+            else:
+                kw = {"pixels": rw.randrange(3, max(4, min(9, n0))), "weight_floor": rw.choice([0.0, 0.1, 0.5]), "weight_power": rw.choice([0.0, 1.0, 2.0])}
+            R.add("im", {"kind": "image_mesh", "cls": c, "kw": kw})
+
+    if "interferometer" in want:
+        nv = rw.randrange(4, 9)
+        uv = [prng.fhex(rv.uniform(-2.0e5, 2.0e5)) for _ in range(2 * nv)]
+        vd = R.add("vis", {"kind": "visibilities", "re": hx(rv, nv), "im": hx(rv, nv)})
+        vn = R.add("vis", {"kind": "visibilities", "re": hx(rv, nv, "noise"), "im": hx(rv, nv, "noise"), "noise_map": True})
+        over = rw.choice([None, None, {"pixelization": {"uniform": 1}}, {"uniform": {"uniform": 2}, "pixelization": {"uniform": 2}}])
+        ifm = R.add("if", {"kind": "interferometer", "data": ref(vd), "noise": ref(vn), "uv": uv, "mask": ref(m0), "over": over})
+        if rw.random() < 0.5:
+            R.add("tr", {"kind": "transformer", "uv": list(uv), "mask": ref(m0), "preload_transform": rw.random() < 0.7})
+        if rw.random() < 0.7:
+            objs_i = [R.add("mp", gen_mapper_spec(rw, rv, m0, (h, w), ps, None, False)) for _ in range(rw.randrange(1, 3))]
+            st = None
+            if rw.random() < 0.5:
+                st = R.add("st", {"kind": "settings", "kw": {"use_w_tilde": rw.random() < 0.5, "use_positive_only_solver": rw.random() < 0.5}})
+            R.add("inv", {"kind": "inversion", "dataset": ref(ifm), "objs": [ref(o) for o in objs_i], "settings": ref(st) if st else None})
+
     if "triangles" in want:
         seen = set()
         coords = []
